@@ -580,6 +580,14 @@ func bulkOne(doc []byte, o *vh.Obs) {
 				if res.Error.Code == 0 || (res.Error.Key == "" && res.Error.Message == "" && len(res.Error.Fields) == 0) {
 					o.Failf("bulk:unstructured-error", "bulk %s answered with an error lacking code/key/message: %+v", res.ReqID, res.Error)
 				}
+				if res.Error.Key == "" && res.ReqID != "p" && !strings.HasPrefix(res.Error.Message, "invalid payload") {
+					sig := "bulk:unkeyed-error:" + res.ReqID
+					if res.ReqID == "y" && (strings.HasPrefix(res.Error.Message, "error unmarshaling JSON") || strings.HasPrefix(res.Error.Message, "error converting YAML")) {
+						// recorded finding: verify reads the envelope itself and an existing test pins the bare message
+						sig += ":unreadable-envelope"
+					}
+					o.Failf(sig, "bulk %s answered with an error that carries no key: %.200s", res.ReqID, res.Error.Message)
+				}
 				if res.Error.Key != "" && !documentedKeys[res.Error.Key.String()] {
 					o.Failf("bulk:undocumented-key", "bulk %s error key %q", res.ReqID, res.Error.Key)
 				}
@@ -694,6 +702,11 @@ func enumSeeds(yield func(BytesCase) bool) {
 			return
 		}
 	}
+	for _, d := range corpus.Legacy() {
+		if !yield(BytesCase{Data: d.JSON}) {
+			return
+		}
+	}
 	loadTrees()
 	for _, d := range docs {
 		if !yield(BytesCase{Data: d.JSON}) {
@@ -712,7 +725,7 @@ var fuzzParse, fuzzBulk func(t *testing.T, c BytesCase)
 
 func init() {
 	vh.Describe(
-		"(1) every single edit (quick tier: of a tenth of the nodes, rotating with the seed) (delete; set to null / [null] / \"\" / {}; insert a null element; duplicate the first element) of every node of every example document, of its calculated envelope and (header and signatures) of its signed envelope, exhaustively; (2) rapid: 1-3 random edits drawn from a hostile value list (nulls, retyped values, unknown currency / country / regime / addon / schema ids, empty and huge numbers, empty and null signatures, deep nesting, duplicated elements); (2b) schema-driven: for every published schema type a minimal document (and the first example of that type) in which each declared path of up to 3 member names (thorough: 5) ends in null / {} / [] / \"\" / 0 / [null] / a malformed template-and-format text, and every member a schema declares and an example (source and calculated envelope) does not carry, added in place with values of the right and of the wrong type (quick tier: a rotating twentieth); (3) fixed hostile texts and truncated examples; (3b) generated documents (internal/docgen) with legal but degenerate numbers: -100% / 0% / huge percentages also as tax rates, with and without included taxes, and generated payments of 1-4 lines whose documents carry tax summaries sharing categories and percentages but differing in surcharges and extensions; (4) thorough: native fuzzing of the parser pipeline (seeded with the examples, hostile texts and one all-members document per published type) and of the bulk request stream. Every input goes through Parse, Envelop, Calculate, Validate, Digest, Verify, Sign, Correct (7 option variants), Replicate, Invert, RemoveIncludedTaxes, Marshal and through bulk build / validate / correct / replicate / verify / sign requests. Oracle: no panic (signature = first gobl frame), no hang (20 s watchdog), every envelope-API error is a *gobl.Error with a documented key that serialises to JSON, every bulk request is answered and the stream ends with one final marker. Non-trivial: the input parses (reaches logic beyond unmarshalling).",
+		"(1) every single edit (quick tier: of a tenth of the nodes, rotating with the seed) (delete; set to null / [null] / \"\" / {}; insert a null element; duplicate the first element) of every node of every example document, of its calculated envelope and (header and signatures) of its signed envelope, exhaustively; (2) rapid: 1-3 random edits drawn from a hostile value list (nulls, retyped values, unknown currency / country / regime / addon / schema ids, empty and huge numbers, empty and null signatures, deep nesting, duplicated elements); (2b) schema-driven: for every published schema type a minimal document (and the first example of that type) in which each declared path of up to 3 member names (thorough: 5) ends in null / {} / [] / \"\" / 0 / [null] / a malformed template-and-format text, and every member a schema declares and an example (source and calculated envelope) does not carry, added in place with values of the right and of the wrong type (quick tier: a rotating twentieth); (3) fixed hostile texts, truncated examples and legacy variants of the examples (older member names, zones, rate and extension keys migrated on load); (3b) generated documents (internal/docgen) with legal but degenerate numbers: -100% / 0% / huge percentages also as tax rates, with and without included taxes, and generated payments of 1-4 lines whose documents carry tax summaries sharing categories and percentages but differing in surcharges and extensions; (4) thorough: native fuzzing of the parser pipeline (seeded with the examples, hostile texts and one all-members document per published type) and of the bulk request stream. Every input goes through Parse, Envelop, Calculate, Validate, Digest, Verify, Sign, Correct (7 option variants), Replicate, Invert, RemoveIncludedTaxes, Marshal and through bulk build / validate / correct / replicate / verify / sign requests. Oracle: no panic (signature = first gobl frame), no hang (20 s watchdog), every envelope-API error is a *gobl.Error with a documented key that serialises to JSON, every bulk error about a document carries a documented key (payload-level protocol errors aside), every bulk request is answered and the stream ends with one final marker. Non-trivial: the input parses (reaches logic beyond unmarshalling).",
 		"a watchdog expiry is reported as a hang only through the replay file (replay must reproduce it)",
 	)
 	vh.Enum("seeds", enumSeeds, judgeBytes)
